@@ -328,7 +328,7 @@ def apply_template(ctx, name, pat_s, rep_s, kwargs, tags, m, src, rng, numbering
         ctx.count('numbering.compared')
         mine = sorted(_canon(p) for p in products)
         if mine != other:
-            if SY.has_equivalent_substituents(m) or SY.symmetric_cage(m) or T.ring_diene_ct(m) or any(SY.has_equivalent_substituents(p) for p in products):
+            if SY.has_equivalent_substituents(m) or SY.symmetric_cage(m) or T.ring_diene_ct(m) or any(SY.has_equivalent_substituents(p) or SY.symmetric_bridged_polycycle(p) for p in products):
                 ctx.exclude('canonical-string-gap', {'template': name, 'smiles': src})
             else:
                 ctx.violation('product-set-depends-on-numbering', '%s on %s: %s vs %s' % (name, src, [x for x in mine if x not in other][:2], [x for x in other if x not in mine][:2]),
